@@ -12,6 +12,7 @@ role separation; the byte-level statements rest on the injectivity of the canoni
 -/
 import Tough.Model.Schema
 import Tough.Proofs.CJsonInj
+import Tough.Proofs.CJsonOrder
 namespace Tough.C12
 open Tough.CJson Tough.Schema
 
@@ -210,6 +211,201 @@ theorem signed_bytes_determine_content (env : Env) (hn : NfcOk env.nfc) (k : Kin
   simp only [message, hv'] at hm'
   exact canon_injective hn v v' val val' b hm hm'
 
+/-! ### Role separation at the level of the signed bytes -/
+
+/-- the first member with that key -/
+def getJ (k : Str) : JMembers → Option JVal
+  | .nil => none
+  | .cons k' v rest => if k' = k then some v else getJ k rest
+
+theorem getJ_insertJ_same (k : Str) (v : JVal) : ∀ acc : JMembers, getJ k (insertJ k v acc) = some v
+  | .nil => by simp [insertJ, getJ]
+  | .cons k' v' rest => by
+    simp only [insertJ]
+    split
+    · simp [getJ]
+    · split
+      · rename_i h1 h2
+        have hne : k' ≠ k := by
+          intro e; subst e; rw [strLt_irrefl] at h2; cases h2
+        simp only [getJ, hne, ↓reduceIte]
+        exact getJ_insertJ_same k v rest
+      · simp [getJ]
+
+theorem getJ_insertJ_other (k k2 : Str) (v : JVal) (hne : k2 ≠ k) : ∀ acc : JMembers, getJ k (insertJ k2 v acc) = getJ k acc
+  | .nil => by simp [insertJ, getJ, hne]
+  | .cons k' v' rest => by
+    simp only [insertJ]
+    split
+    · simp [getJ, hne]
+    · split
+      · simp only [getJ]
+        split
+        · rfl
+        · exact getJ_insertJ_other k k2 v hne rest
+      · rename_i h1 h2
+        have e : k2 = k' := strLt_trichotomy (by simpa using h1) (by simpa using h2)
+        subst e
+        simp [getJ, hne]
+
+theorem getJ_sortJAux (k : Str) : ∀ (ms acc : JMembers), k ∉ memberNames ms → getJ k (sortJAux ms acc) = getJ k acc
+  | .nil, acc, _ => rfl
+  | .cons k' v' rest, acc, h => by
+    simp only [memberNames, List.mem_cons, not_or] at h
+    simp only [sortJAux]
+    rw [getJ_sortJAux k rest (insertJ k' v' acc) h.2]
+    exact getJ_insertJ_other k k' v' (fun e => h.1 e.symm) acc
+
+/-- a key that occurs once, as the first member, keeps its value through the ordering of the members -/
+theorem getJ_sortJ_head (k : Str) (v : JVal) (ms : JMembers) (h : k ∉ memberNames ms) :
+    getJ k (sortJ (.cons k v ms)) = some v := by
+  simp only [sortJ, sortJAux]
+  rw [getJ_sortJAux k ms _ h]
+  exact getJ_insertJ_same k v .nil
+
+theorem memberNames_nrmM (nfc : Str → Str) : ∀ ms : JMembers, memberNames (nrmM nfc ms) = (memberNames ms).map (normStr nfc)
+  | .nil => by simp [nrmM, memberNames]
+  | .cons k v rest => by simp [nrmM, memberNames, memberNames_nrmM nfc rest]
+
+/-- the members tough keeps of a top-level role never include `_type`: it is written from the Rust type -/
+theorem normFields_no_type (env : Env) (k : Kind) (hk : (tag k).isSome = true) :
+    ∀ (ms : JMembers) (seen : Bool) (out : JMembers), normFields env k seen ms = some out → S "_type" ∉ memberNames out
+  | .nil, seen, out, h => by
+    simp only [normFields, Option.some.injEq] at h; subst h; simp [memberNames]
+  | .cons name v rest, seen, out, h => by
+    simp only [normFields] at h
+    split at h
+    · exact normFields_no_type env k hk rest true out h
+    · cases hr : normFields env k (seen || isPathSet k name) rest with
+      | none => simp [hr] at h
+      | some rest' =>
+        have ih := normFields_no_type env k hk rest _ rest' hr
+        simp only [hr] at h
+        cases hf : findField k name with
+        | some f =>
+          simp only [hf] at h
+          have hname : name ≠ S "_type" := by
+            intro e; subst e; rw [findField_type] at hf; cases hf
+          split at h
+          · simp only [Option.some.injEq] at h; subst h; exact ih
+          · cases hn : norm env f.ty v with
+            | none => simp [hn] at h
+            | some v' =>
+              simp only [hn] at h
+              split at h
+              · simp only [Option.some.injEq] at h; subst h; exact ih
+              · simp only [Option.some.injEq] at h; subst h
+                simp only [memberNames, List.mem_cons, not_or]
+                exact ⟨fun e => hname e.symm, ih⟩
+        | none =>
+          simp only [hf, hk, Bool.true_and] at h
+          split at h
+          · simp only [Option.some.injEq] at h; subst h; exact ih
+          · rename_i hnt
+            have hname : name ≠ S "_type" := by
+              intro e; subst e; simp at hnt
+            split at h
+            · simp only [Option.some.injEq] at h; subst h
+              simp only [memberNames, List.mem_cons, not_or]
+              exact ⟨fun e => hname e.symm, ih⟩
+            · simp only [Option.some.injEq] at h; subst h; exact ih
+
+/-- what the theorem below assumes about string normalisation, beyond `NfcOk` (Unicode NFC satisfies
+both: ASCII text is already normalised, and nothing else normalises to ASCII letters or `_`) -/
+structure TagOk (nfc : Str → Str) : Prop where
+  tagsFixed : ∀ t ∈ roleNames, normStr nfc t = t
+  typeOnly : ∀ k, normStr nfc k = normStr nfc (S "_type") → k = S "_type"
+
+theorem tagOk_id : TagOk id := by
+  have hid : ∀ s : Str, normStr id s = s := by
+    intro s
+    have aux : ∀ (s acc : Str), normStrAux id s acc = acc.reverse ++ s := by
+      intro s
+      induction s with
+      | nil => intro acc; simp only [normStrAux]; split <;> simp_all
+      | cons c cs ih =>
+        intro acc
+        simp only [normStrAux]
+        split
+        · split
+          · rename_i h; simp only [List.isEmpty_iff] at h; subst h; simp [ih]
+          · simp [ih]
+        · rw [ih]; simp
+    simp [normStr, aux]
+  exact ⟨fun t _ => hid t, fun k h => by rw [hid, hid] at h; exact h⟩
+
+/-- **C12.d (role separation, at the level of the signed bytes).** A document read as one top-level
+role and a document read as another are never checked against the same bytes — even when the same key
+is authorized for both roles, a signature over one is not a signature over the other.  (Value-level
+separation `reser_tag` + injectivity of the canonical form up to its normal form + the type tag
+surviving that normal form.) -/
+theorem roles_never_share_signed_bytes (env : Env) (hn : NfcOk env.nfc) (ht : TagOk env.nfc)
+    (k k' : Kind) (t t' : Str) (hk : tag k = some t) (hk' : tag k' = some t') (hne : k ≠ k')
+    (j j' v v' : JVal) (hv : reser env k j = some v) (hv' : reser env k' j' = some v')
+    (val : validJ v = true) (val' : validJ v' = true)
+    (b : Bytes) (hm : message env k j = some b) (hm' : message env k' j' = some b) : False := by
+  have hnrm : nrm env.nfc v = nrm env.nfc v' := by
+    simp only [message, hv] at hm
+    simp only [message, hv'] at hm'
+    exact canon_injective hn v v' val val' b hm hm'
+  -- the shape of the two values
+  have shape : ∀ (k : Kind) (t : Str) (j v : JVal), tag k = some t → reser env k j = some v →
+      ∃ ms, v = .obj (.cons (S "_type") (.str t) ms) ∧ S "_type" ∉ memberNames ms := by
+    intro k t j v hk h
+    unfold reser at h
+    rw [hk] at h
+    cases hno : norm env (.obj k) j with
+    | none => simp [hno] at h
+    | some w =>
+      cases w with
+      | obj ms =>
+        simp only [hno, Option.some.injEq] at h
+        refine ⟨ms, h.symm, ?_⟩
+        cases j with
+        | obj js =>
+          simp only [norm] at hno
+          split at hno
+          · cases hf : normFields env k false js with
+            | none => simp [hf] at hno
+            | some out =>
+              simp only [hf, Option.map_some, Option.some.injEq, JVal.obj.injEq] at hno
+              subst hno
+              exact normFields_no_type env k (by rw [hk]; rfl) js false out hf
+          · cases hno
+        | null => simp [norm] at hno
+        | bool b => simp [norm] at hno
+        | int i => simp [norm] at hno
+        | float => simp [norm] at hno
+        | str s => simp [norm] at hno
+        | arr xs => simp [norm] at hno
+      | null => simp [hno] at h
+      | bool b => simp [hno] at h
+      | int i => simp [hno] at h
+      | float => simp [hno] at h
+      | str s => simp [hno] at h
+      | arr xs => simp [hno] at h
+  obtain ⟨ms, rfl, hms⟩ := shape k t j v hk hv
+  obtain ⟨ms', rfl, hms'⟩ := shape k' t' j' v' hk' hv'
+  have key : ∀ (t : Str) (ms : JMembers), S "_type" ∉ memberNames ms →
+      getJ (normStr env.nfc (S "_type")) (sortJ (nrmM env.nfc (.cons (S "_type") (.str t) ms))) = some (.str (normStr env.nfc t)) := by
+    intro t ms h
+    simp only [nrmM, nrm]
+    apply getJ_sortJ_head
+    rw [memberNames_nrmM]
+    intro hmem
+    obtain ⟨x, hx, e⟩ := List.mem_map.mp hmem
+    exact h (ht.typeOnly x e ▸ hx)
+  simp only [nrm, JVal.obj.injEq] at hnrm
+  have e1 := key t ms hms
+  have e2 := key t' ms' hms'
+  rw [hnrm, e2] at e1
+  simp only [Option.some.injEq, JVal.str.injEq] at e1
+  have tin : ∀ (k : Kind) (t : Str), tag k = some t → t ∈ roleNames := by
+    intro k t h
+    cases k <;> simp only [tag, Option.some.injEq, reduceCtorEq] at h <;> (subst h; decide)
+  rw [ht.tagsFixed t (tin k t hk), ht.tagsFixed t' (tin k' t' hk')] at e1
+  exact tags_differ k' k t' t hk' hk (fun e => hne e.symm) e1
+
 /-! ### Witnesses -/
 
 def envW : Env := { nfc := id, tnorm := some, keyOk := fun _ _ => true }
@@ -220,6 +416,15 @@ def mems : List (String × JVal) → JMembers
 
 def delegW (extra : List (String × JVal)) : JVal :=
   .obj (mems ([("keys", .obj .nil), ("roles", .arr .nil)] ++ extra))
+
+/-- one document that parses as a snapshot and as a timestamp (same members): both readings have a
+message, and the two messages differ — the premises of `roles_never_share_signed_bytes` other than the
+equality of the bytes are satisfiable -/
+def onlineW : JVal := .obj (mems [("_type", .str (S "snapshot")), ("spec_version", .str (S "1.0.0")), ("version", .int 3),
+  ("expires", .str (S "2031-05-06T07:08:09Z")), ("meta", .obj .nil)])
+
+example : (message envW .snapshot onlineW).isSome = true ∧ (message envW .timestamp onlineW).isSome = true ∧
+    message envW .snapshot onlineW ≠ message envW .timestamp onlineW := by decide
 
 /-- a small targets document; `topExtra` / `delegExtra`: unknown members at the top level / inside `delegations` -/
 def targetsW (topExtra delegExtra : List (String × JVal)) : JMembers :=
